@@ -288,6 +288,11 @@ def gen_tree_case(rng, prof: dict | None = None) -> dict:
         hib = rng.random() < p.get("hibernation_p", 0.3)
     if hib or rng.random() < 0.3:
         options["hibernation"] = bool(hib)
+    r = rng.random()
+    if r < 0.08:
+        options["log_level"] = rng.choice(["error", "critical", "warning"])
+    elif r < 0.11:
+        options["log_level"] = rng.choice(["info", "debug"])  # verbose levels: the log calls' arguments are used for real
     return {
         "gen": GEN_VERSION,
         "kind": "tree",
